@@ -41,9 +41,21 @@ func jhOpts(hl slog.Level, mode byte) *slog.HandlerOptions {
 		}
 	case 'u':
 		opts.ReplaceAttr = func(_ []string, a slog.Attr) slog.Attr { a.Key = strings.ToUpper(a.Key); return a }
+	case 'v':
+		// the minimum level comes from a *slog.LevelVar
+		lv := &slog.LevelVar{}
+		lv.Set(hl)
+		opts.Level = lv
+	case 'w':
+		// ... or from a Leveler of the caller's own
+		opts.Level = ownLeveler{hl}
 	}
 	return opts
 }
+
+type ownLeveler struct{ l slog.Level }
+
+func (o ownLeveler) Level() slog.Level { return o.l }
 
 func refText(opts *slog.HandlerOptions, chain [][]slog.Attr, r slog.Record) string {
 	var buf bytes.Buffer
@@ -287,7 +299,7 @@ func genC19(g *G) {
 	}
 	pick := func(xs []string) string { return xs[g.Rnd.IntN(len(xs))] }
 	msgs := []string{"", "hello", "with \"quotes\"", "line1\nline2", "tab\there", "\x00\x01ctl", "<a>&b", "é ü", "\xff\xfe bad", "back\\slash", " sep", "emoji \U0001F600", "a=b c=d", "trailing\n", "\r\n", "{\"json\":1}", strings.Repeat("long ", 80), "a\x7fb", "\x7f", "del\x7f end"}
-	keys := []string{"k", "key with space", "k\"q", "k\nn", "", "é", "k=v", "\xff", "k\x7f", "\x7f"}
+	keys := []string{"k", "key with space", "k\"q", "k\nn", "", "é", "k=v", "\xff", "k\x7f", "\x7f", "time", "level", "msg", "source"}
 	mkAttr := func() string {
 		k := HS(pick(keys))
 		switch g.Rnd.IntN(9) {
@@ -340,7 +352,7 @@ func genC19(g *G) {
 		}
 		mode := byte(0)
 		if g.Rnd.IntN(4) == 0 {
-			mode = "atu"[g.Rnd.IntN(3)]
+			mode = "atuvw"[g.Rnd.IntN(5)]
 			if mode == 'a' && g.Rnd.IntN(2) == 0 {
 				// nothing left to print: the text line is empty
 				recAttrs, chain, chainS, chainA = "", nil, "", nil
